@@ -15,6 +15,7 @@ _COMMON = (
     "into the self-referential any and into type P: the library returns an error of its own before 3000 levels of recursion (counted by a declining caller-supplied function; the unmarshal half is the known finding "
     "KF-C20-unmarshal-pointer-cycle). callopt: a Decoder/Encoder whose own AllowDuplicateNames and the per-call value given to UnmarshalDecode/MarshalEncode are chosen by the solver, 0-4 tokens consumed before the call, "
     "two symbolic bytes in the member value the call may stumble over; afterwards the caller keeps reading/writing tokens: errors are fine, a panic is not. "
+    "legacy-elements: under ReportErrorsWithLegacySemantics (conversion errors do not stop an array/object) every element of [?,\"x\",?] / {\"a\":?,...} is offered to the element unmarshaler at most once for four target kinds (slice of a non-empty interface, []int8, map[string]int8, [2]bool): no element is re-read (non-termination). "
     "OUTSIDE: other deep or cyclic typed Go values (cycles through slices/maps/structs past depth 1000), Int/Uint/Float of number tokens with symbolic non-digit text (strconv), numbers whose "
     "ParseFloat takes the Eisel-Lemire/overflow path (engine fault, see ASSUMPTIONS), wall-clock termination (only the step budget), depths other than those listed, AppendFloat bit sizes.")
 BOUNDS = {
@@ -101,6 +102,8 @@ def obligations(tier):
     # cycles through pointers and interfaces only; per-call AllowDuplicateNames on a call that fails mid-object
     for kind in range(5):
         L.append(ob("ptrcycle/kind=%d" % kind, ".", "VerifC20PointerCycle", [kind], covers=(["checked"] if kind < 3 else []), step_limit=400000000))
+    for kind in range(4):
+        L.append(ob("legacy-elements/kind=%d" % kind, ".", "VerifC20LegacyElementsConsumed", [kind], covers=["error"]))
     L.append(ob("callopt/decoder", ".", "VerifC20CallOptionDecoder", [], covers=["call-failed", "call-succeeded", "stopped-with-error"]))
     L.append(ob("callopt/encoder", ".", "VerifC20CallOptionEncoder", [], covers=["call-failed", "call-succeeded"]))
     return L
